@@ -275,12 +275,11 @@ static void case_find(int with_copy)
 	int destlen, r, rawlen = 0, rejected = 0;
 
 	memset(&m, 0, sizeof(m));
-	/* instrument paths: never the empty string (dirs[ndirs-1]); what an empty
-	 * instrument path means is left to the load oracle */
+	/* instrument paths include the empty string (dirs[ndirs-1]) = current directory */
 	if (vrng_chance(45))
-		ctx = &dirs[vrng_below(ndirs - 1)];
+		ctx = &dirs[vrng_below(ndirs)];
 	if (vrng_chance(25))
-		env = &dirs[vrng_below(ndirs - 1)];
+		env = &dirs[vrng_below(ndirs)];
 	if (vrng_chance(80))
 		md = &dirs[vrng_below(ndirs)];
 	ins = ctx ? ctx : env;
@@ -296,7 +295,7 @@ static void case_find(int with_copy)
 		m.dirname = md->path;
 
 	if (with_copy) {
-		if (vrng_chance(50)) {
+		if (vrng_chance(30)) {
 			gen_raw_name(raw, &rawlen);
 		} else {
 			gen_lookup_name(ins ? ins : md, md, name, 60);
